@@ -286,6 +286,8 @@ where
         #[cfg(feature = "verif")]
         verif_hooks::point("sf.map.lock");
         let mut m = self.call_map.lock().await;
+        #[cfg(feature = "verif")]
+        verif_hooks::point("sf.map.locked");
         if let Some(c) = m.get(key).cloned() {
             (c, false)
         } else {
@@ -302,6 +304,8 @@ where
         #[cfg(feature = "verif")]
         verif_hooks::point("sf.map.lock2");
         let mut m = self.call_map.lock().await;
+        #[cfg(feature = "verif")]
+        verif_hooks::point("sf.map.locked2");
         m.remove(key).ok_or(SingleflightError::CallMissing)?;
         Ok(())
     }
